@@ -5,9 +5,35 @@
 use std::sync::atomic::{AtomicU32, Ordering::SeqCst};
 
 use oxidd_core::verif::{self, site};
-use parking_lot::MutexGuard;
 
 pub struct Mutex<T>(parking_lot::Mutex<T>);
+
+/// Guard whose release is a decision point of the simulator: whatever a
+/// thread does right after leaving a critical section can be interleaved
+/// with another thread entering it
+pub struct MutexGuard<'a, T>(std::mem::ManuallyDrop<parking_lot::MutexGuard<'a, T>>);
+
+impl<T> std::ops::Deref for MutexGuard<'_, T> {
+    type Target = T;
+    #[inline]
+    fn deref(&self) -> &T {
+        &self.0
+    }
+}
+impl<T> std::ops::DerefMut for MutexGuard<'_, T> {
+    #[inline]
+    fn deref_mut(&mut self) -> &mut T {
+        &mut self.0
+    }
+}
+impl<T> Drop for MutexGuard<'_, T> {
+    #[inline]
+    fn drop(&mut self) {
+        // SAFETY: dropped exactly once, here
+        unsafe { std::mem::ManuallyDrop::drop(&mut self.0) };
+        verif::yield_point(site::MUTEX_UNLOCK);
+    }
+}
 
 impl<T> Mutex<T> {
     #[inline]
@@ -20,7 +46,7 @@ impl<T> Mutex<T> {
         verif::yield_point(site::MUTEX_LOCK);
         loop {
             if let Some(guard) = self.0.try_lock() {
-                return guard;
+                return MutexGuard(std::mem::ManuallyDrop::new(guard));
             }
             verif::spin(site::MUTEX_SPIN);
         }
@@ -49,7 +75,7 @@ impl Condvar {
     }
 
     pub fn wait<T>(&self, guard: &mut MutexGuard<'_, T>) {
-        let mutex = MutexGuard::mutex(guard);
+        let mutex = parking_lot::MutexGuard::mutex(&guard.0);
         // Registering as a waiter happens while the mutex is still held, like
         // the enqueue operation of parking_lot
         self.waiters.fetch_add(1, SeqCst);
